@@ -241,6 +241,33 @@ def h_misc(ctx, what):
       ctx.check('other bound events of a surviving owner still delivered', calls == (['b/E2'] if True else []) or (formA == 5 and not kill_a and calls == ['a/E2', 'b/E2']))
     del b; gc.collect()
     ctx.check('all weak handlers gone at the end', src._eventMixin_get_listener_count() == 1 + (0 if kill_a else (2 if formA == 5 else 1)))
+  elif what == 'weak_during':
+    # the owner of a weak handler dies *while the event is being delivered* (an earlier handler drops the last reference): the dead
+    # handler is skipped quietly, the remaining handlers still run, nothing reaches the raiser
+    calls = []
+    class Owner:
+      def _handle_E1(self, e): calls.append('weak')
+    holder = [Owner()]
+    form = int(ctx.int('form', 0, 2)); how = int(ctx.int('raise_form', 0, 2))
+    def dropper(e):
+      calls.append('dropper'); holder[:] = []; gc.collect()
+    src.addListener(w.E1, dropper, priority=5)
+    if form == 0: src.addListener(w.E1, holder[0]._handle_E1, weak=True)
+    elif form == 1: src.addListenerByName('E1', holder[0]._handle_E1, weak=True)
+    else: src.addListeners(holder[0], weak=True)
+    src.addListener(w.E1, lambda e: calls.append('tail'), priority=-5)
+    def go():
+      if how == 0: src.raiseEvent(w.E1)
+      elif how == 1: src.raiseEvent(w.E1())
+      else: src.raiseEventNoErrors(w.E1)
+    failed = None
+    try: go()
+    except Exception as ex: failed = ex
+    ctx.check('nothing propagates to the raiser when a weak handler\'s owner dies during delivery', failed is None)
+    ctx.check('the remaining handlers are still invoked, the dead one is not', calls == ['dropper', 'tail'])
+    ctx.check('the dead handler is unsubscribed', src._eventMixin_get_listener_count() == 2)
+    del calls[:]; go()
+    ctx.check('next delivery: survivors only', calls == ['dropper', 'tail'])
   elif what == 'autobind':
     calls = []
     class Sink:
@@ -267,6 +294,6 @@ def obligations(tier):
   return [
     Obligation('O1_histories', h_history, [dict(plan=p, behs=behs) for p in plans], witnesses=('done',), max_decisions=20000,
                desc='invocation log == reference dispatcher over symbolic histories'),
-    Obligation('O2_misc', h_misc, [dict(what=x) for x in ('undeclared', 'weak', 'autobind')], witnesses=('done',),
+    Obligation('O2_misc', h_misc, [dict(what=x) for x in ('undeclared', 'weak', 'weak_during', 'autobind')], witnesses=('done',),
                desc='undeclared types rejected; weak handlers; autoBindEvents/removeListeners'),
   ]
